@@ -5,6 +5,7 @@ import (
 	"fmt"
 	"math/rand"
 	"strings"
+	"sync/atomic"
 	"time"
 	"unicode/utf8"
 
@@ -665,7 +666,12 @@ func moveStrings(c *fw.Ctx, r *rand.Rand, p ref.Pos) { moveStringsGame(c, r, p, 
 
 // moveStringsGame is moveStrings at the end of a game played through Engine.Move: every move of the game is a
 // string that denotes a legal move and must be accepted whatever the game's history (repetitions, clocks).
+var moveHung atomic.Bool
+
 func moveStringsGame(c *fw.Ctx, r *rand.Rand, start ref.Pos, moves []ref.Move) {
+	if moveHung.Load() {
+		return
+	}
 	ctx := context.Background()
 	e := recipes[0].newEngine(ctx, engine.Options{Depth: 1, Hash: 0}, 0, nil)
 	if err := e.Reset(ctx, start.FEN()); err != nil {
@@ -750,7 +756,9 @@ func moveStringsGame(c *fw.Ctx, r *rand.Rand, start ref.Pos, moves []ref.Move) {
 			want = legal[strings.ToLower(s)]
 		}
 		var err error
-		func() {
+		answered := make(chan struct{})
+		go func() {
+			defer close(answered)
 			defer func() {
 				if rec := recover(); rec != nil {
 					c.Violate("text:enginemove-panic", "Engine.Move(%q) panicked in %q: %v", s, p.FEN(), rec)
@@ -759,6 +767,13 @@ func moveStringsGame(c *fw.Ctx, r *rand.Rand, start ref.Pos, moves []ref.Move) {
 			}()
 			err = e.Move(ctx, s)
 		}()
+		select {
+		case <-answered:
+		case <-time.After(20 * time.Second):
+			c.Violate("text:enginemove-hang", "Engine.Move(%q) in %q has not returned after 20 s\n%s", s, p.FEN(), stacks())
+			moveHung.Store(true) // (one report per worker: every further call would cost the same wait)
+			return
+		}
 		if err == nil {
 			c.Count("move_accepted", 1)
 			if !want {
